@@ -343,12 +343,51 @@ def run_real(argv, script, python=None, timeout=60):
     return {"exit": p.returncode, "stdout": p.stdout.decode("utf-8", "replace"), "stderr": p.stderr.decode("utf-8", "replace")}
 
 
+class EofAtAgent(object):
+    """Enumerated EOF sweep: the first legal value (canonical) at every prompt; at read index k either
+    end of input, or a legal answer without newline followed by end of input."""
+
+    def __init__(self, version, labels, k, midline, refuse_first=False):
+        self.sp = spec.SPECS[version]
+        self.labels = labels
+        self.k = k
+        self.midline = midline
+        self.refuse_first = refuse_first
+
+    def answer(self, index, prompt):
+        label, offered = runner23.parse_prompt(prompt)
+        m = self.labels.get(label)
+        value = self.sp.values[m][0] if m in self.sp.values else (offered[0] if offered else "N")
+        if index == self.k:
+            return ("m", value) if self.midline else ("e", "")
+        if self.refuse_first and index == self.k - 1:
+            return "l", "zz9"
+        return "l", value
+
+
+def eof_sweep_cases():
+    cases = []
+    for vflag in (None, "-2", "-3", "-4"):
+        version = SELECTED[vflag]
+        for all_metrics in (False, True):
+            nq = len(spec.SPECS[version].metrics(all_metrics))
+            for k in range(0, nq + 1):
+                for midline in (False, True):
+                    for refuse_first in (False, True):
+                        if refuse_first and k == 0:
+                            continue
+                        cases.append((vflag, all_metrics, k, midline, refuse_first))
+    return cases
+
+
 class CliEngine(object):
     prop = PROP
 
-    def __init__(self, seed=0, real_every=0):
+    def __init__(self, seed=0, real_every=0, mode="random"):
         self.seed = seed
         self.real_every = real_every
+        self.mode = mode
+        self.cases = eof_sweep_cases() if mode == "eofsweep" else None
         self.labels = dict((v, spec.label_map(v)) for v in spec.VERSIONS)
         import cvss
 
@@ -364,7 +403,26 @@ class CliEngine(object):
         return engine_builder.LiveAgent(rng.fork("workload"), rng.fork("faults"), sw, selected, all_metrics,
                                         self.labels[selected]), sw
 
+    def run_eof_case(self, index):
+        vflag, all_metrics, k, midline, refuse_first = self.cases[index]
+        version = SELECTED[vflag]
+        argv = ([vflag] if vflag else []) + (["-a"] if all_metrics else []) + ["-n"] + (["-j"] if index % 2 else [])
+        agent = EofAtAgent(version, self.labels[version], k, midline, refuse_first)
+        rec = runner23.ScriptAgent([], fallback=agent)
+        res = runner23.run_cli(argv, rec, MAX_READS)
+        item = {"k": "cli", "argv": argv, "script": rec.served, "cap": MAX_READS}
+        trace = {"engine": "cli", "eof_sweep_case": [vflag, all_metrics, k, midline, refuse_first], "item": item, "real": True}
+        out = self.assess(trace, res)
+        out["counters"]["sweep.eof_runs"] = 1
+        out["counters"]["fault.eof_midline" if midline else "fault.eof"] = 1
+        # every 7th case also as a real child process
+        if index % 7 == 0:
+            self.compare_real(out, item, res)
+        return out
+
     def run_one(self, index):
+        if self.mode == "eofsweep":
+            return self.run_eof_case(index)
         run_seed = mix(self.seed, PROP, index)
         rng = Rng(run_seed)
         case = draw_case(rng.fork("argv"))
@@ -494,5 +552,5 @@ class CliEngine(object):
                 yield "/".join(cand)
 
 
-def make_engine(seed=0, real_every=0):
-    return CliEngine(seed, real_every)
+def make_engine(seed=0, real_every=0, mode="random"):
+    return CliEngine(seed, real_every, mode)
